@@ -80,7 +80,33 @@ type Theory interface {
 
 // ---------------------------------------------------------------- INT theory
 
-type IntTheory struct{}
+// IntTheory: machine integers as mathematical integers. It keeps a small table of
+// statically known bit facts (value < 2^width, value divisible by 2^tz) so that
+// shifts that cannot overflow and ORs of disjoint bit ranges are encoded exactly.
+type IntTheory struct {
+	bits map[string]bitsInfo
+}
+
+type bitsInfo struct{ tz, width int }
+
+func (th IntTheory) info(t T, m MT) bitsInfo {
+	if t.C != nil && t.C.Sign() >= 0 {
+		if t.C.Sign() == 0 {
+			return bitsInfo{tz: m.W, width: 0}
+		}
+		return bitsInfo{tz: int(t.C.TrailingZeroBits()), width: t.C.BitLen()}
+	}
+	if bi, ok := th.bits[t.S]; ok {
+		return bi
+	}
+	return bitsInfo{tz: 0, width: m.W}
+}
+
+func (th IntTheory) note(t T, bi bitsInfo) {
+	if th.bits != nil && t.C == nil {
+		th.bits[t.S] = bi
+	}
+}
 
 func (IntTheory) Mode() string         { return "int" }
 func (IntTheory) Sort(m MT) Sort       { return sortInt }
@@ -217,6 +243,22 @@ func (th IntTheory) Bin(x side, op token.Token, a, b T, m MT) T {
 		if b.C != nil && b.C.Sign() == 0 {
 			return a
 		}
+		if !m.Signed {
+			ia, ib := th.info(a, m), th.info(b, m)
+			if ia.width <= ib.tz || ib.width <= ia.tz {
+				r := vc.define("ord", mkAdd(a, b))
+				w := ia.width
+				if ib.width > w {
+					w = ib.width
+				}
+				tz := ia.tz
+				if ib.tz < tz {
+					tz = ib.tz
+				}
+				th.note(r, bitsInfo{tz: tz, width: w})
+				return r
+			}
+		}
 		r := vc.fresh("or", sortInt)
 		if !m.Signed {
 			vc.assume(mkAnd(mkCmp("<=", a, r), mkCmp("<=", b, r), mkCmp("<=", r, mkAdd(a, b)), mkCmp("<=", r, intT(m.Max()))))
@@ -317,6 +359,13 @@ func (th IntTheory) Shift(x side, op token.Token, a T, m MT, cnt T, cm MT) T {
 		}
 		if op == token.SHL {
 			e := mkMul(a, intT(pow2(c)))
+			if !m.Signed {
+				if ia := th.info(a, m); ia.width+c <= m.W {
+					r := vc.define("shlx", e)
+					th.note(r, bitsInfo{tz: ia.tz + c, width: ia.width + c})
+					return r
+				}
+			}
 			if m.Signed {
 				return th.wrapTo(x, "shl", e, m, nil, nil)
 			}
@@ -386,6 +435,11 @@ func (th IntTheory) Conv(x side, a T, from, to MT) T {
 	}
 	// value-preserving?
 	if from.Min().Cmp(to.Min()) >= 0 && from.Max().Cmp(to.Max()) <= 0 {
+		if !from.Signed && from.W < to.W {
+			if _, known := th.bits[a.S]; !known {
+				th.note(a, bitsInfo{tz: 0, width: from.W})
+			}
+		}
 		return a
 	}
 	if to.Signed && to.W < from.W {
